@@ -22,6 +22,28 @@ void fact_do(const vf_api *P, const vf_mat *A, const superlu_options_t *opt, con
     int mn = A->m < A->n ? A->m : A->n;
     R->have_LU = (R->info >= 0 && R->info <= mn && lwork != -1);
 }
+/* refactorization through the factor routine itself: same pattern, new values, Fact = SamePattern_SameRowPerm (ordering, row pivots and
+   storage of the factorization held in R are reused; perm_r is an input). Documented for ?gstrf for square and tall matrices alike.
+   Mode: SamePattern_SameRowPerm, or SamePattern (fresh pivots and storage, ordering reused). */
+void fact_redo(const vf_api *P, const vf_mat *A2, fact_t mode, void *work, int_t lwork, fact_run *R)
+{
+    if (!R->have_LU) return;
+    if (mode == SamePattern) {      /* fresh L/U: release the old pair first, as the drivers' callers do */
+        if (R->user_work) { Destroy_SuperMatrix_Store(&R->L); Destroy_SuperMatrix_Store(&R->U); }
+        else { Destroy_SuperNode_Matrix(&R->L); Destroy_CompCol_Matrix(&R->U); }
+        R->have_LU = 0; for (int i = 0; i < R->m; i++) R->perm_r[i] = -7777;
+    }
+    Destroy_CompCol_Permuted(&R->AC); R->have_AC = 0;
+    free_sparse(&R->A); mk_sparse(P, A2, 0, &R->A);
+    R->opt.Fact = mode;
+    sp_preorder(&R->opt, &R->A, R->perm_c, R->etree, &R->AC); R->have_AC = 1;
+    R->info = -999;
+    feclearexcept(FE_ALL_EXCEPT);
+    P->gstrf(&R->opt, &R->AC, sp_ienv(2), sp_ienv(1), R->etree, work, lwork, R->perm_c, R->perm_r, &R->L, &R->U, &R->Glu, &R->stat, &R->info);
+    R->fp_inexact = fetestexcept(FE_INEXACT) != 0;
+    int mn = R->m < R->n ? R->m : R->n;
+    R->have_LU = (R->info >= 0 && R->info <= mn);
+}
 void fact_free(fact_run *R)
 {
     if (R->have_LU) {
@@ -396,3 +418,33 @@ malformed:
     free(Ld); free(Ud);
 }
 
+
+void mat_revalue(vf_rng *r, const vf_api *P, const vf_mat *A, int kind, const int *perm_r, const int *perm_c, vf_mat *A2)
+{
+    mat_copy(A2, A);
+    int m = A->m, n = A->n;
+    ld *rs = NULL;
+    if (kind == 3) { rs = malloc(sizeof(ld) * (size_t)(m + 1)); for (int i = 0; i < m; i++) rs[i] = ldexpl(1.0L, rng_int(r, -6, 6)); }
+    /* pivot row of ORIGINAL column j: column j sits at position perm_c[j]; the row whose perm_r equals that position was its pivot */
+    int *prow = NULL;
+    if (kind == 2 && perm_r && perm_c) { prow = malloc(sizeof(int) * (size_t)(n + 1)); int *inv = malloc(sizeof(int) * (size_t)(m + 1));
+        for (int i = 0; i < m; i++) inv[i] = -1;
+        for (int i = 0; i < m; i++) if (perm_r[i] >= 0 && perm_r[i] < m) inv[perm_r[i]] = i;
+        for (int j = 0; j < n; j++) prow[j] = (perm_c[j] >= 0 && perm_c[j] < m) ? inv[perm_c[j]] : -1;
+        free(inv); }
+    for (int j = 0; j < n; j++) {
+        int hit = kind == 2 && rng_bool(r, 0.25);
+        for (int_t q = A->colptr[j]; q < A->colptr[j + 1]; q++) {
+            ldc v = A->v[q];
+            switch (kind) {
+            case 0: v = v * (1 + (2 * rng_unif(r) - 1) * 64 * P->eps); break;
+            case 1: v = (2 * rng_unif(r) - 1) + (P->cplx ? (2 * rng_unif(r) - 1) * I : 0); if (rng_bool(r, 0.1)) v *= 8; break;
+            case 2: if (hit && prow && A->rowind[q] == prow[j]) v = v * 1e-6L; else if (hit) v = v * (1 + rng_unif(r)); break;
+            default: v = v * rs[A->rowind[q]]; break;
+            }
+            A2->v[q] = P->round(v);
+            if (A2->v[q] == 0 && A->v[q] != 0) A2->v[q] = A->v[q];     /* keep the stored pattern's nonzeros nonzero */
+        }
+    }
+    free(rs); free(prow);
+}
